@@ -85,6 +85,9 @@ type Features struct {
 	// operand of a JSON operator, subscripts of parenthesised expressions, NOT over EXISTS (..) = x, quoted
 	// function names, every tokenizer keyword as a quoted column name, TABLESPACE / ON CONSTRAINT / index method
 	Corners bool
+	// OrderByAlias: ORDER BY may name a select-list alias. KeywordValues: CURRENT_DATE, CURRENT_TIMESTAMP,
+	// CURRENT_USER as value leaves (the parser gives them the shape of a column reference).
+	OrderByAlias, KeywordValues bool
 	// Flat: no nested query anywhere and no statement-starting keyword after the
 	// first token (SELECT/INSERT ... VALUES/DELETE only): the sub-grammar C12 quantifies over
 	Flat bool
@@ -102,6 +105,7 @@ func FullFeatures() Features {
 	f.MySQL, f.Partitions = true, true
 	f.QuotedOddNames, f.QuotedDotName, f.QuotedDigitsName = true, true, true
 	f.Corners = true
+	f.OrderByAlias, f.KeywordValues = true, true
 	return f
 }
 
